@@ -10,10 +10,26 @@ Oracle: lock-step agreement, after every update, with the Fraction reference
 models of models/seqtests.py - CUSUM: drift_state (and the documented
 "standard deviation is 0" ValueError, an expected terminal outcome);
 PageHinkley: drift_state and every column of to_dataframe().
+
+Round-3 family extensions (EXTENDING.md): additional tasks, labelled
+"<system>|<family>|...", each family with counters ``fam_<family>_steps`` /
+``fam_<family>_alarms``:
+  val     value alphabets far from {-2,0,1,4}: negative, fractional non-dyadic, mixed signs,
+          levels 1e6 / +-3e7 with small spread, scale 1e-6 (CUSUM estimated and given
+          statistics; Page-Hinkley both directions, including negative running means, where
+          the documented test alarms at every eligible sample);
+  par     legal-but-unusual parameters: threshold 0 and fractional, delta 0 / non-dyadic /
+          large, burn_in larger than the history, non-dyadic given target / sd;
+  feed    the observation as scalar / list / 1-D / 2-D array / Series / one-cell DataFrame,
+          float32-, int64-, int32-, uint8-typed, mixed int/float;
+  long    default parameters, L = 160, k <= 1 (the default burn-in of 30 is passed, several epochs).
+Their tolerances scale with the conditioning of the data (``_tol``).
 """
 import itertools
+import math
 
 import numpy as np
+import pandas as pd
 
 from menelaus.change_detection import CUSUM, PageHinkley
 
@@ -23,6 +39,129 @@ from models.seqtests import PH_COLUMNS, CusumModel, PageHinkleyModel
 
 PROPERTY = "C04"
 ALPHABET = [-2, 0, 1, 4]
+
+
+# ------------------------------------------------------------------------------------------
+# round-3 families: value alphabets, containers / dtypes, tolerances
+# ------------------------------------------------------------------------------------------
+# Four symbols each, playing the roles (low, base, base + ~1, high) of {-2, 0, 1, 4}.  Events are the
+# numbers themselves; the model gets exactly the number the detector sees.
+ALPHABETS = {
+    "base": ALPHABET,
+    "neg": [-7.3, -5.1, -4.2, -1.1],  # negative, non-dyadic (Page-Hinkley: negative running mean all the way)
+    "frac": [0.3, 2.1, 3.2, 6.4],  # fractional, non-dyadic
+    "mix": [-2.6, -0.4, 0.3, 3.7],  # mixed signs: sums may nearly cancel (4 * 0.3 - 3 * 0.4)
+    "lvl6": [999997.9, 1000000.1, 1000000.9, 1000004.3],  # level 1e6, non-dyadic
+    "lvl7": [29999998.0, 30000000.0, 30000001.0, 30000004.0],  # level 3e7, integral
+    "nlvl7": [-30000002.3, -30000000.1, -29999999.2, -29999995.9],  # level -3e7, non-dyadic
+    "tiny": [-2e-06, 5e-07, 1e-06, 4e-06],  # scale 1e-6
+    "dy32": [-2.25, 0.5, 1.0, 4.75],  # dyadic, exactly representable in float32
+    "imix": [-2, 0, 1.5, 4],  # integral values arrive int-typed, the fractional one as a float
+    "u8": [98, 100, 101, 104],  # representable in uint8
+}
+EPS64 = 2.0 ** -52
+EPS32 = 2.0 ** -23
+FEEDS = {
+    "cont": ["l1", "df", "a1", "l2", "a2", "np64", "ser", "f"],  # the same float64 number in every accepted container
+    "df": ["df"],  # one-cell DataFrame (labelled column, non-default row label) from the first call on
+    "f32": ["f32", "a1f32", "a2f32", "dff32"],  # float32-typed all the way
+    "int": ["i", "i64", "a1i64", "a2i32", "dfi", "l1i"],  # integer-typed: python int, int64, int32
+    "auto": ["auto"],  # int-typed when the value is integral, float otherwise
+    "u8": ["a1u8", "u8", "a2u8"],  # uint8-typed
+}
+_DTYPES = {"f32": np.float32, "i64": np.int64, "i32": np.int32, "u8": np.uint8}
+
+
+def _wrap(kind, v):
+    """(object handed to update(), exact number it stands for)."""
+    if kind == "auto":
+        kind = "i" if float(v).is_integer() else "f"
+    if kind == "f":
+        return float(v), float(v)
+    if kind == "np64":
+        return np.float64(v), float(v)
+    if kind == "l1":
+        return [float(v)], float(v)
+    if kind == "l2":
+        return [[float(v)]], float(v)
+    if kind == "a1":
+        return np.array([float(v)]), float(v)
+    if kind == "a2":
+        return np.array([[float(v)]]), float(v)
+    if kind == "ser":
+        return pd.Series([float(v)]), float(v)
+    if kind == "df":
+        return pd.DataFrame({"x": [float(v)]}, index=[7]), float(v)
+    if kind == "i":
+        return int(v), int(v)
+    if kind == "l1i":
+        return [int(v)], int(v)
+    if kind == "dfi":
+        return pd.DataFrame({"x": [int(v)]}), int(v)
+    shape, dt = None, kind
+    for pre, sh in (("a1", 1), ("a2", 2), ("df", "df")):
+        if kind.startswith(pre):
+            shape, dt = sh, kind[2:]
+    t = _DTYPES[dt]
+    x = t(v)
+    seen = float(x) if dt == "f32" else int(x)
+    if dt != "f32" and seen != v:
+        raise ValueError("value %r does not fit dtype %s" % (v, dt))
+    if shape == 1:
+        return np.array([x], dtype=t), seen
+    if shape == 2:
+        return np.array([[x]], dtype=t), seen
+    if shape == "df":
+        return pd.DataFrame({"x": np.array([x], dtype=t)}), seen
+    return x, seen
+
+
+def _tol(alpha, L, feed=None):
+    """Tolerances of a family whose data are ALPHABETS[alpha] (S = max|x|), histories of <= L observations.
+
+    A correct floating-point implementation carries, on every quantity that is a sum / running mean of <= L
+    observations or deviations, an absolute error of at most L * eps * S (eps = 2^-52; 2^-23 when the stream is
+    float32-typed, because numpy then computes in float32).  ``floor_x`` = 64 * L * eps * S leaves a factor 64 over
+    that bound (measured errors are far below the bound itself):
+      * a decision whose two sides are closer than floor_x (CUSUM: floor_x / sd in standardised units;
+        Page-Hinkley: floor_x * max(1, |lambda|)) is numerically undecidable whatever its relative margin
+        (models/seqtests.py::gt_floor) - needed because with threshold 0, tiny scales or cancelling means both
+        sides are ~0 and a relative margin says nothing;
+      * Page-Hinkley columns: U, U-min / max-U, max, min within floor_x; running mean within floor_x / 16
+        (4 L eps S), theta within |lambda| * floor_x / 16; change_scores must be exactly the number fed.
+    Relative tie margin: the framework's 1e-9, except float32-typed streams (4 * L * eps32: every operation is
+    rounded to 24 bits).  Configurations in exact (dyadic) arithmetic ignore all of this: ties are enforced.
+    """
+    S = max(abs(float(v)) for v in ALPHABETS[alpha])
+    eps = EPS32 if feed == "f32" else EPS64
+    return {"floor_x": 64 * L * eps * S, "tie": 4 * L * EPS32 if feed == "f32" else 1e-9}
+
+
+def _near(a, b, tol):
+    a = float(a)
+    b = float(b)
+    if math.isnan(a) or math.isnan(b):
+        return math.isnan(a) and math.isnan(b)
+    if math.isinf(a) or math.isinf(b):
+        return a == b
+    return abs(a - b) <= tol
+
+
+def _row_bad(exp_row, obs_row, tol, lam):
+    """Columns (indices into PH_COLUMNS) on which the observed to_dataframe() row is off."""
+    f = tol["floor_x"]
+    limits = (0.0, f, f, abs(lam) * f / 16, None, f, f, f / 16)
+    bad = []
+    for j, lim in enumerate(limits):
+        e, o = exp_row[j], obs_row[j]
+        if lim is None:
+            if not (isinstance(o, (bool, np.bool_)) and bool(o) == bool(e)):
+                bad.append(j)
+        elif isinstance(o, (bool, np.bool_)) or not isinstance(o, (int, float, np.integer, np.floating)):
+            bad.append(j)
+        elif not _near(e, o, lim + (1e-12 * abs(e) if j in (1, 2, 5, 6) else 0.0)):
+            bad.append(j)
+    return bad
 
 
 def _desc(cfg):
@@ -61,22 +200,34 @@ class CusumSystem(System):
 
     def init(self, cfg):
         p = cfg["params"]
-        return {"det": CUSUM(**p), "model": CusumModel(**p)}
+        model = CusumModel(**p)
+        if cfg.get("tol"):
+            model.floor_x = cfg["tol"]["floor_x"]
+        if cfg.get("fam"):
+            model.bits = 24 if cfg.get("feed") == "f32" else 53
+        return {"det": CUSUM(**p), "model": model}
 
     def alphabet(self, cfg, state, pos):
-        return ALPHABET
+        return ALPHABETS[cfg.get("alphabet", "base")]
 
     def step(self, cfg, state, ev, pos, ctx):
         det = state["det"]
         err = None
+        feed = cfg.get("feed")
+        tol = cfg.get("tol")
+        fam = cfg.get("fam")
         # "offset" families feed level + symbol: the same tests far away from 0, where a numerically careless
         # re-estimation (one-pass variance, say) loses all its digits; decisions within 1e-6 of the threshold are
         # undecidable there (the float mean / standard deviation of 3e7-sized data carry ~1e-8 relative error)
-        x = float(ev) + float(cfg.get("offset", 0.0))
+        if feed:
+            kinds = FEEDS[feed]
+            x_in, x = _wrap(kinds[pos % len(kinds)], ev)
+        else:
+            x_in = x = float(ev) + float(cfg.get("offset", 0.0))
         if cfg.get("offset"):
             ctx.count("offset_level_steps")
         try:
-            det.update(x)
+            det.update(x_in)
         except ValueError as e:
             msg = " ".join(str(e).split())
             err = "ValueError" if msg.startswith("Standard deviation is 0") else "ValueError: " + msg[:120]
@@ -88,35 +239,56 @@ class CusumSystem(System):
             "total": int(det.total_samples),
             "since": int(det.samples_since_reset),
         }
-        model, exp, ok = lockstep(
-            state["model"],
-            lambda m, D: m.step(x, D),
-            lambda e: not diff_keys(e, obs),
-            stats=ctx.stats,
-            **({"tie": 1e-6} if cfg.get("offset") else {}),
-        )
+
+        def agree(e):
+            if tol and e["error"] == "ValueError" and obs["error"] is None:
+                # the specification's standard deviation is exactly 0 (constant window of non-dyadic numbers) but
+                # the float estimate is rounding noise (mean of three 0.1s is not 0.1): raising and not raising are
+                # both within float error; nothing after this point can be predicted (z = noise / noise)
+                return True
+            return not diff_keys(e, obs)
+
+        kw = {}
+        if cfg.get("offset"):
+            kw["tie"] = 1e-6
+        elif tol:
+            kw["tie"] = tol["tie"]
+        model, exp, ok = lockstep(state["model"], lambda m, D: m.step(x, D), agree, stats=ctx.stats, **kw)
         state["model"] = model
         if not ok:
             later = model.epoch >= 2
+            sig = "CUSUM-spec-after-first-alarm" if later else "CUSUM-spec-first-epoch"
+            if fam == "feed-narrow":
+                # x - target evaluated in the (unsigned / narrow) integer dtype of the input wraps around
+                sig = "CUSUM-spec:narrow-int-dtype"
             raise Violation(
                 "CUSUM-spec",
                 "CUSUM(%s) disagrees with the cumulative-sum test on the current observation on %s "
-                "at sample %d (epoch %d, %d-th sample of the epoch; model: target=%s sd=%s s_h=%s s_l=%s)"
+                "at sample %d (epoch %d, %d-th sample of the epoch; model: target=%s sd=%s s_h=%s s_l=%s)%s"
                 % (
                     _desc(cfg),
                     diff_keys(exp, obs),
                     pos + 1,
                     model.epoch,
                     model.n,
-                    model.target,
+                    None if model.target is None else float(model.target),
                     None if model.sd is None else float(model.sd),
                     float(model.hi),
                     float(model.lo),
+                    (" [observations fed as %s]" % FEEDS[feed][:6]) if feed else "",
                 ),
                 expected=exp,
                 observed=obs,
-                sig="CUSUM-spec-after-first-alarm" if later else "CUSUM-spec-first-epoch",
+                sig=sig,
             )
+        if fam:
+            ctx.count("fam_cusum_%s_steps" % fam)
+            if exp["state"] == "drift":
+                ctx.count("fam_cusum_%s_alarms" % fam)
+        if tol and exp["error"] == "ValueError" and obs["error"] is None:
+            ctx.count("sd0_within_rounding_noise_branch_closed")
+            ctx.terminal = True
+            return obs
         last = model.last
         d = cfg["params"].get("direction")
         if last.get("alarm"):
@@ -172,17 +344,32 @@ class PageHinkleySystem(System):
 
     def init(self, cfg):
         p = cfg["params"]
-        return {"det": PageHinkley(**p), "model": PageHinkleyModel(**p), "seen": _Frozen([])}
+        model = PageHinkleyModel(**p)
+        if cfg.get("tol"):
+            model.floor_x = cfg["tol"]["floor_x"]
+        if cfg.get("fam"):
+            model.bits = 24 if cfg.get("feed") == "f32" else 53
+        return {"det": PageHinkley(**p), "model": model, "seen": _Frozen([])}
 
     def alphabet(self, cfg, state, pos):
-        return ALPHABET
+        return ALPHABETS[cfg.get("alphabet", "base")]
 
     def step(self, cfg, state, ev, pos, ctx):
         det = state["det"]
         err = None
         frame = None
+        feed = cfg.get("feed")
+        tol = cfg.get("tol")
+        fam = cfg.get("fam")
+        if feed:
+            kinds = FEEDS[feed]
+            x_in, x = _wrap(kinds[pos % len(kinds)], ev)
+        elif fam:
+            x_in = x = float(ev)
+        else:
+            x_in, x = float(ev), ev
         try:
-            det.update(float(ev))
+            det.update(x_in)
             df = det.to_dataframe()
             if list(df.columns) != list(PH_COLUMNS):
                 df = df[list(PH_COLUMNS)]
@@ -210,30 +397,51 @@ class PageHinkleySystem(System):
             "total": int(det.total_samples),
             "since": int(det.samples_since_reset),
         }
+        lam = state["model"].lam
+
+        def bad_keys(e):
+            if not tol:
+                return diff_keys(e, obs)
+            # family tolerances: the row is compared column by column with limits that scale with the data
+            bad = [k for k in ("state", "nrows", "earlier_rows_unchanged") if e[k] != obs[k]]
+            if obs["row"] is None or len(obs["row"]) != len(PH_COLUMNS) or _row_bad(e["row"], obs["row"], tol, lam):
+                bad.append("row")
+            return bad
+
         model, exp, ok = lockstep(
             state["model"],
-            lambda m, D: m.step(ev, D),
-            lambda e: not diff_keys(e, obs),
+            lambda m, D: m.step(x, D),
+            lambda e: not bad_keys(e),
             stats=ctx.stats,
+            **({"tie": tol["tie"]} if tol else {}),
         )
         state["model"] = model
         state["seen"] = _Frozen(frame)
         if not ok:
-            bad = diff_keys(exp, obs)
+            bad = bad_keys(exp)
             cols = []
             if "row" in bad and obs["row"] is not None:
-                cols = [PH_COLUMNS[j] for j in range(len(PH_COLUMNS)) if not close(exp["row"][j], obs["row"][j])]
+                if tol:
+                    cols = [PH_COLUMNS[j] for j in _row_bad(exp["row"], obs["row"], tol, lam)]
+                else:
+                    cols = [PH_COLUMNS[j] for j in range(len(PH_COLUMNS)) if not close(exp["row"][j], obs["row"][j])]
             raise Violation(
                 "PageHinkley-spec",
                 "PageHinkley(%s) disagrees with the documented Page-Hinkley test on %s %s at sample %d "
-                "(epoch %d, %d-th sample of the epoch)" % (_desc(cfg), bad, cols, pos + 1, model.epoch, model.t),
+                "(epoch %d, %d-th sample of the epoch)%s"
+                % (_desc(cfg), bad, cols, pos + 1, model.epoch, model.t,
+                   (" [observations fed as %s]" % FEEDS[feed][:6]) if feed else ""),
                 expected=exp,
                 observed=dict(obs, previous_frame=prev[-3:], frame_tail=frame[-4:]),
                 sig="PageHinkley-spec-after-first-alarm" if model.epoch >= 2 else "PageHinkley-spec-first-epoch",
             )
+        if fam:
+            ctx.count("fam_ph_%s_steps" % fam)
+            if exp["state"] == "drift":
+                ctx.count("fam_ph_%s_alarms" % fam)
         last = model.last
         if last.get("alarm"):
-            ctx.mark("ph_alarm_" + cfg["params"]["direction"])
+            ctx.mark("ph_alarm_" + cfg["params"].get("direction", "positive"))
         if model.mean < 0 and last.get("fired"):
             ctx.count("ph_fired_with_negative_theta")
         _common_counters(ctx, "ph", model, last)
@@ -460,6 +668,195 @@ def tasks(tier, seed):
             t["cfg"] = {"id": t["cfg"]["id"] + "@3e7", "params": p, "offset": 3.0e7}
             t["label"] = t["label"].replace("CUSUM|", "CUSUM|offset3e7|", 1)
             out.append(t)
+    out.extend(_extension_tasks(tier))
+    return out
+
+
+# ------------------------------------------------------------------------------------------
+# round-3 families (additional tasks; every task above is kept as it was)
+# ------------------------------------------------------------------------------------------
+def _C(burn_in, delta, threshold, direction, target=None, sd_hat=None):
+    p = {"burn_in": burn_in, "delta": delta, "threshold": threshold, "direction": direction}
+    if target is not None:
+        p["target"] = target
+        p["sd_hat"] = sd_hat
+    return p
+
+
+def _H(direction, burn_in, delta, threshold):
+    return {"direction": direction, "burn_in": burn_in, "delta": delta, "threshold": threshold}
+
+
+E1 = _C(2, 0.5, 1, None)
+E2 = _C(3, 0, 2, None)
+E3 = _C(2, 0, 2, "positive")
+E4 = _C(3, 0.5, 1, "negative")
+
+# (system, family, params, alphabet, feed, depth quick, depth thorough)
+X_DFS = [
+    # ---- CUSUM, value families: estimated / re-estimated statistics ----
+    ("CUSUM", "val-neg", E1, "neg", None, 7, 8), ("CUSUM", "val-neg", E4, "neg", None, 6, 7),
+    ("CUSUM", "val-frac", E2, "frac", None, 7, 8), ("CUSUM", "val-frac", E3, "frac", None, 6, 7),
+    ("CUSUM", "val-mix", E1, "mix", None, 7, 8), ("CUSUM", "val-mix", E2, "mix", None, 6, 7),
+    ("CUSUM", "val-lvl6", E2, "lvl6", None, 7, 8), ("CUSUM", "val-lvl6", E4, "lvl6", None, 6, 7),
+    ("CUSUM", "val-nlvl7", E1, "nlvl7", None, 7, 8), ("CUSUM", "val-nlvl7", E3, "nlvl7", None, 6, 7),
+    ("CUSUM", "val-tiny", E2, "tiny", None, 7, 8), ("CUSUM", "val-tiny", E1, "tiny", None, 6, 7),
+    # ---- CUSUM, value families: given statistics (non-dyadic target / sd; one dyadic-closed at level 3e7) ----
+    ("CUSUM", "val-lvl6", _C(1, 0.3, 1.5, None, 1000000.1, 0.7), "lvl6", None, 6, 7),
+    ("CUSUM", "val-nlvl7", _C(0, 0, 2.5, "negative", -30000000.1, 1.7), "nlvl7", None, 6, 7),
+    ("CUSUM", "val-mix", _C(3, 0.25, 0.75, "positive", 0.3, 0.3), "mix", None, 6, 7),
+    ("CUSUM", "val-tiny", _C(1, 0.1, 2, None, 1e-06, 1.5e-06), "tiny", None, 6, 7),
+    ("CUSUM", "val-lvl7", _C(1, 0.5, 2, None, 30000000, 1), "lvl7", None, 6, 7),  # exact arithmetic at 3e7: ties enforced
+    ("CUSUM", "val-lvl7", _C(3, 0, 1, "negative", 30000001, 2), "lvl7", None, 6, 7),
+    # ---- CUSUM, unusual parameters ----
+    ("CUSUM", "par-h0", _C(1, 0.5, 0, None, 0, 1), "base", None, 6, 7),  # threshold 0
+    ("CUSUM", "par-h0", _C(2, 0, 0, "positive"), "base", None, 6, 7),
+    ("CUSUM", "par-h0", _C(2, 0, 0, None), "frac", None, 6, 7),  # threshold 0, delta 0, non-dyadic data: sums of ~0
+    ("CUSUM", "par-dBig", _C(1, 5, 1, None, 0, 0.5), "base", None, 6, 7),  # slack larger than most z
+    ("CUSUM", "par-dBig", _C(2, 5, 0.5, "negative"), "base", None, 6, 7),
+    ("CUSUM", "par-bBig", _C(50, 0, 1, None, 0, 1), "base", None, 6, 7),  # burn-in longer than the history
+    ("CUSUM", "par-bBig", _C(50, 0.5, 1, None), "base", None, 5, 6),
+    ("CUSUM", "par-nd", _C(1, 0, 5, None, 0, 0.3), "base", None, 6, 7),  # given sd / target / delta non-dyadic
+    ("CUSUM", "par-nd", _C(3, 0.5, 1, "negative", 1, 1.7), "base", None, 6, 7),
+    ("CUSUM", "par-nd", _C(0, 0.005, 2, "positive", 0.1, 0.7), "base", None, 6, 7),
+    ("CUSUM", "par-nd", _C(2, 0.005, 5, None), "base", None, 7, 8),  # default delta and threshold
+    ("CUSUM", "par-nd", _C(3, 0.3, 0.7, None), "frac", None, 6, 7),  # fractional threshold
+    # ---- CUSUM, containers / dtypes ----
+    ("CUSUM", "feed-cont", E1, "frac", "cont", 7, 8),
+    ("CUSUM", "feed-cont", _C(3, 0.25, 0.75, "positive", 0.3, 0.3), "mix", "cont", 6, 7),
+    ("CUSUM", "feed-df", E2, "mix", "df", 6, 7),
+    ("CUSUM", "feed-f32", _C(1, 0.5, 2, None, 0, 1), "base", "f32", 6, 7),  # float32 arithmetic is exact here: ties enforced
+    ("CUSUM", "feed-f32", E1, "dy32", "f32", 6, 7),
+    ("CUSUM", "feed-f32", E2, "dy32", "f32", 6, 7),
+    ("CUSUM", "feed-int", _C(3, 0.5, 1, None, 1, 2), "base", "int", 6, 7),
+    ("CUSUM", "feed-int", E2, "base", "int", 6, 7),
+    ("CUSUM", "feed-int", E3, "u8", "u8", 6, 7),  # uint8-typed with estimated statistics (numpy's mean/std are float64)
+    ("CUSUM", "feed-auto", E1, "imix", "auto", 6, 7),
+    # uint8-typed with an integer target: x - target is evaluated in uint8 (a genuine defect is expected here)
+    ("CUSUM", "feed-narrow", _C(0, 0, 3, None, 100, 1), "u8", "u8", 4, 5),
+    # ---- Page-Hinkley, value families (both directions) ----
+    ("PageHinkley", "val-neg", _H("positive", 1, 0, 1), "neg", None, 6, 7),
+    ("PageHinkley", "val-neg", _H("negative", 3, 0.5, 2), "neg", None, 6, 7),
+    ("PageHinkley", "val-frac", _H("positive", 0, 0.01, 0.5), "frac", None, 6, 7),
+    ("PageHinkley", "val-frac", _H("negative", 1, 0.3, 1), "frac", None, 5, 6),
+    ("PageHinkley", "val-mix", _H("positive", 1, 0, 1), "mix", None, 6, 7),
+    ("PageHinkley", "val-mix", _H("negative", 0, 0.01, 2), "mix", None, 6, 7),
+    ("PageHinkley", "val-lvl6", _H("positive", 1, 0, 2e-06), "lvl6", None, 6, 7),
+    ("PageHinkley", "val-lvl6", _H("negative", 0, 0.3, 1e-06), "lvl6", None, 5, 6),
+    ("PageHinkley", "val-lvl7", _H("positive", 1, 0, 1e-07), "lvl7", None, 5, 6),
+    ("PageHinkley", "val-lvl7", _H("negative", 1, 0.5, 5e-08), "lvl7", None, 6, 7),
+    ("PageHinkley", "val-nlvl7", _H("positive", 1, 0, 1e-07), "nlvl7", None, 5, 6),
+    ("PageHinkley", "val-nlvl7", _H("negative", 3, 0.5, 1e-07), "nlvl7", None, 5, 6),
+    ("PageHinkley", "val-tiny", _H("positive", 1, 0, 1), "tiny", None, 6, 7),
+    ("PageHinkley", "val-tiny", _H("negative", 0, 1e-07, 2), "tiny", None, 5, 6),
+    # ---- Page-Hinkley, unusual parameters ----
+    ("PageHinkley", "par-h0", _H("positive", 1, 0, 0), "base", None, 6, 7),  # threshold 0
+    ("PageHinkley", "par-h0", _H("negative", 0, 0.5, 0), "frac", None, 5, 6),
+    ("PageHinkley", "par-hfrac", _H("positive", 1, 0, 0.3), "base", None, 6, 7),  # fractional, non-dyadic threshold
+    ("PageHinkley", "par-hfrac", _H("negative", 2, 0.01, 0.75), "base", None, 5, 6),
+    ("PageHinkley", "par-dBig", _H("negative", 1, 5, 1), "base", None, 5, 6),  # delta larger than every deviation
+    ("PageHinkley", "par-dBig", _H("positive", 0, 5, 1), "base", None, 5, 6),
+    ("PageHinkley", "par-bBig", _H("positive", 50, 0, 1), "base", None, 5, 6),  # burn-in longer than the history
+    # ---- Page-Hinkley, containers / dtypes ----
+    ("PageHinkley", "feed-cont", _H("positive", 1, 0, 1), "frac", "cont", 6, 7),
+    ("PageHinkley", "feed-df", _H("negative", 1, 0.5, 1), "mix", "df", 5, 6),
+    ("PageHinkley", "feed-f32", _H("positive", 1, 0, 1), "dy32", "f32", 6, 7),
+    ("PageHinkley", "feed-f32", _H("negative", 0, 0.5, 2), "base", "f32", 5, 6),
+    ("PageHinkley", "feed-int", _H("negative", 0, 0.5, 2), "base", "int", 5, 6),
+    ("PageHinkley", "feed-int", _H("positive", 1, 0, 0.01), "u8", "u8", 5, 6),
+    ("PageHinkley", "feed-auto", _H("positive", 1, 0, 1), "imix", "auto", 5, 6),
+]
+
+# default parameters, L = 160: CUSUM() = burn_in 30, delta .005, threshold 5, two-sided; PageHinkley() = delta .01,
+# threshold 20, burn_in 30, positive.  Level shifts are placed so that every epoch outlives its burn-in and alarms.
+LONG_DEFAULTS = {
+    "CUSUM": [0, 1] * 17 + [4] * 6 + [4, 1, 4, 4, 1, 4] * 6 + [-2, 0] * 5 + [0, 1, 0, -2] * 9 + [4] * 4 + [1, 4] * 17,
+    "PageHinkley": [0, 1] * 17 + [4] * 8 + [1, 0] * 16 + [4] * 14 + [-2, 0, -2, 1] * 10 + [0, 1] * 10 + [4] * 12,
+}
+LONG_DEFAULTS = {k: v[:160] for k, v in LONG_DEFAULTS.items()}
+
+FAM_ALARMS = {
+    "cusum": [
+        "val-neg", "val-frac", "val-mix", "val-lvl6", "val-lvl7", "val-nlvl7", "val-tiny",
+        "par-h0", "par-dBig", "par-nd", "feed-cont", "feed-df", "feed-f32", "feed-int", "feed-auto", "long-default",
+    ],
+    "ph": [
+        "val-neg", "val-frac", "val-mix", "val-lvl6", "val-lvl7", "val-nlvl7", "val-tiny",
+        "par-h0", "par-hfrac", "par-dBig", "feed-cont", "feed-df", "feed-f32", "feed-int", "feed-auto", "long-default",
+    ],
+}
+# burn-in longer than every history: alarms are impossible, that is the point
+FAM_QUIET = {"cusum": ["par-bBig"], "ph": ["par-bBig"]}
+FAM_NARROW = {"cusum": ["feed-narrow"], "ph": []}  # a genuine defect is expected on the pinned tree
+
+
+def _x_cfg(system, fam, params, alpha, feed, L, tag):
+    kind = _kind_of(system, params)
+    cid = "%s:%s:%s%s" % (fam, tag, alpha, (":" + feed) if feed else "")
+    cfg = {"id": cid, "params": params, "alphabet": alpha, "fam": fam}
+    if feed:
+        cfg["feed"] = feed
+    cfg["tol"] = _tol(alpha, L, feed)
+    return cfg
+
+
+def _x_dfs_tasks(system, fam, params, alpha, feed, depth):
+    model_cls = CusumModel if system == "CUSUM" else PageHinkleyModel
+    cfg = _x_cfg(system, fam, params, alpha, feed, depth, _cid(_kind_of(system, params), params))
+    alphabet = ALPHABETS[alpha]
+    split = max(1, depth - SUBTREE[system])
+    out = []
+    for prefix in itertools.product(alphabet, repeat=split):
+        dead = _model_closes_at(model_cls, params, prefix)
+        if dead is not None and any(x != alphabet[0] for x in prefix[dead + 1:]):
+            continue
+        out.append(
+            {
+                "system": system,
+                "cfg": cfg,
+                "prefix": list(prefix),
+                "depth": depth - split,
+                "label": "%s|%s|%s|d%d|%s" % (system, fam, cfg["id"], depth, ",".join(map(str, prefix))),
+                "cost": UNIT[system] * 4 ** (depth - split) * 2,
+                "validate_every": 997,
+            }
+        )
+    return out
+
+
+def _x_long_tasks(system):
+    default = LONG_DEFAULTS[system]
+    cfg = {"id": "long-default:%s" % system, "params": {}, "alphabet": "base", "fam": "long-default"}
+    cfg["tol"] = _tol("base", len(default))  # delta .005 / .01 are not dyadic: margins and the noise floor apply
+    L = len(default)
+    # one prefix-sharing task per third of the deviation positions (the deviation-free history is part of each)
+    out = []
+    thirds = [(0, 54), (54, 107), (107, L)]
+    for a, b in thirds:
+        menu = [[x for x in ALPHABET if x != default[i]] if a <= i < b else [] for i in range(L)]
+        out.append(
+            {
+                "system": system,
+                "cfg": cfg,
+                "mode": "dev",
+                "default": default,
+                "menu": menu,
+                "menu_per_pos": True,
+                "k": 1,
+                "label": "%s|long-default|L%d|k1|dev@%d-%d" % (system, L, a, b - 1),
+                "cost": UNIT[system] * 3 * (b - a) * (L - (a + b) // 2),
+                "validate_every": 97,
+            }
+        )
+    return out
+
+
+def _extension_tasks(tier):
+    out = []
+    for system, fam, params, alpha, feed, dq, dt in X_DFS:
+        out.extend(_x_dfs_tasks(system, fam, params, alpha, feed, dq if tier == "quick" else dt))
+    out.extend(_x_long_tasks("CUSUM"))
+    out.extend(_x_long_tasks("PageHinkley"))
     return out
 
 
@@ -497,6 +894,10 @@ REQUIRED = [
     "sd0_terminals",
     "ph_frame_rows_compared",
 ]
+# round-3 families; neither detector uses randomness, so none of these counters depends on VERIF_SEED
+for _s in ("cusum", "ph"):
+    REQUIRED += ["fam_%s_%s_steps" % (_s, f) for f in FAM_ALARMS[_s] + FAM_QUIET[_s] + FAM_NARROW[_s]]
+    REQUIRED += ["fam_%s_%s_alarms" % (_s, f) for f in FAM_ALARMS[_s]]
 
 # wall-clock safety net only (the machine is shared; bounds are sized by CPU seconds / 16)
 TIME_BUDGET = {"quick": 3600, "thorough": 21600}
